@@ -20,7 +20,7 @@ prop('C01', ['K1', 'M1', 'M2', 'M3', 'M7', 'T4', 'DC1', 'DC4', 'M8', 'U1'],
      ['identity of leaf objects at every position', 'equality of the re-flattened treespec',
       'any n replacement leaves round-trip'])
 
-prop('C02', ['K5', 'K6', 'NS1', 'K2', 'D2', 'T2', 'M7', 'K4', 'T1', 'T1e', 'T3', 'T3b'],
+prop('C02', ['K5', 'K6', 'NS1', 'K2', 'D2', 'T2', 'M7', 'K4', 'T1', 'T1e', 'T3', 'T3b', 'L6', 'G9'],
      'Leaf order and classification, structural part: the user predicate is consulted before the '
      'registry and a true answer never reaches it (K5, on the CFG of all 5 classification sites); '
      'lookup order namespace map -> global map -> struct sequence -> namedtuple with the exact '
@@ -31,7 +31,8 @@ prop('C02', ['K5', 'K6', 'NS1', 'K2', 'D2', 'T2', 'M7', 'K4', 'T1', 'T1e', 'T3',
      'enumerated in its own order (M7); every traversal visits children left to right under its '
      'discipline (K4). '
      'The namedtuple / struct-sequence recognisers classification rests on test the documented '
-     'atoms (T1) and their per-type caches cannot answer for a class that has died (T3, T3b).',
+     'atoms (T1) and their per-type caches cannot answer for a class that has died (T3, T3b). '
+     'The lookup keeps no memo of its answers: no scratch state in function-local statics on the lookup path (L6), no write to a registry member by Lookup / GetKind and no stale Python-side memo (G9).',
      ['equal dicts flatten equally for all inputs', 'None-removal law', 'predicate idempotence'])
 
 prop('C03', ['K1', 'K3', 'K4', 'K5', 'K7', 'K8', 'M7', 'F1', 'F14', 'F7', 'F10', 'T4', 'T2', 'NS1', 'D2', 'N1', 'N2', 'M1', 'K2', 'D5', 'L6', 'B1'],
@@ -136,7 +137,7 @@ prop('C11', ['S1', 'S2', 'S3', 'K2', 'NS1'],
      'The loader looks custom types up in the recorded namespace (NS1).',
      ['cross-process behaviour', 'protocols', 'post-load equality'])
 
-prop('C12', ['G7', 'G1', 'G2', 'G3', 'G4', 'G8', 'G5', 'G6', 'L4', 'K6', 'K6py', 'NS1', 'D4', 'D5', 'I5', 'B1', 'G9'],
+prop('C12', ['G7', 'G1', 'G2', 'G3', 'G4', 'G8', 'G5', 'G6', 'L4', 'K6', 'K6py', 'NS1', 'D4', 'D5', 'I5', 'B1', 'G9', 'L6'],
      'Registry: validation dominates mutation and nothing fallible follows the first mutation '
      '(G1); no C-API failure result is ignored (G2); the Python mirror is written only after the '
      'engine call, under the lock, with the same key, by exactly two functions (G3); a mutation '
